@@ -391,6 +391,7 @@ static void run_c04(void)
 int main(int argc, char **argv)
 {
     parse_opts(argc, argv);
+    run_prelude();
     if (ref_selftest() != 0) engine_error("reference self-test failed");
     if (!g_opts.sub) engine_error("--sub required");
     if (!strcmp(g_opts.sub, "c01")) run_c01();
